@@ -17,6 +17,17 @@ Theorem C11_run_history_independent :
 Proof. exact run_history_independent. Qed.
 Print Assumptions C11_run_history_independent.
 
+(* ... and for histories that switch solver: model.run reuses its cached runner only for the solver it was built with
+   (repair of /repo recorded in known_findings.json; before it a second run asked for rk4 returned the Euler results of the
+   cached runner), so after ANY history model.run(p, solver) - rebuilt or not - is the run of a fresh object with that
+   solver *)
+Theorem C11_run_history_independent_any_solver :
+  forall (O : NumOps) (m : model) (cs : list call) (p : params) (s : solver) (rebuild : bool),
+    snd (step O (fst (steps O (init_api O m) cs)) (CRun p s rebuild)) =
+      Some (pure_run O (with_defaults_model m (current_defaults (m_defaults m) cs)) s p).
+Proof. exact run_history_independent_any_solver. Qed.
+Print Assumptions C11_run_history_independent_any_solver.
+
 (* the same call at two points of a history gives the same result *)
 Theorem C11_repeatable :
   forall (O : NumOps) (m : model) s cs1 cs2 p rb1 rb2,
